@@ -113,8 +113,27 @@ impl<T: Qcow2IoOps> Qcow2Dev<T> {
         };
 
         // Clear the L2 entry to all zeros (unallocated state, reads-as-zero).
+        //
+        // With backing file, unallocated cluster reads from the backing image
+        // instead, so mark the cluster as zero; version 2 image has no zero
+        // flag, then keep the mapping and just zero the host cluster.
         let idx = split.l2_slice_index(info);
-        l2_table.set(idx, L2Entry(0));
+        let zero_entry = if info.has_back_file() {
+            if self.header.read().await.version() < 3 {
+                drop(l2_table);
+                return self
+                    .call_fallocate(
+                        host_cluster,
+                        host_count * info.cluster_size(),
+                        Qcow2OpsFlags::FALLOCATE_ZERO_RANGE,
+                    )
+                    .await;
+            }
+            L2Entry(1)
+        } else {
+            L2Entry(0)
+        };
+        l2_table.set(idx, zero_entry);
         l2_handle.set_dirty(true);
         self.mark_need_flush(true);
         drop(l2_table);
